@@ -2549,7 +2549,11 @@ fn set_is_used_expr(expr: &mut Expression, value_is_used: bool) {
             }
         }
         Expression_::Parentheses(paren) => {
-            set_is_used_expr(Rc::make_mut(&mut paren.expr), true);
+            // The inner expression's value is used exactly when the
+            // parenthesised expression's value is.
+            let inner = Rc::make_mut(&mut paren.expr);
+            inner.value_is_used = value_is_used;
+            set_is_used_expr(inner, value_is_used);
         }
         Expression_::FunLiteral(fun_info) => set_is_used_fun_info(fun_info),
         Expression_::Break
